@@ -350,6 +350,18 @@ func runC14(r *Runner) string {
 	}
 	r.Do("bip39.dec", []string{"-"}, "dec/word count 0..30", true, "one empty word")
 
+	// every one of the 2048 words inside a valid mnemonic (as the first word: the first 11 bits of the entropy)
+	for w := 0; w < 2048; w++ {
+		if !r.thorough && w%4 != int(r.res.Seed%4+4)%4 && w != 1654 && w != 103 && w != 0 && w != 2047 {
+			continue
+		}
+		e := r.bytesN(c14Sizes[w%5])
+		e[0] = byte(w >> 3)
+		e[1] = e[1]&0x1f | byte(w&7)<<5
+		words := c14Mnemonic(e)
+		r.Do("bip39.enc", []string{hx(e)}, "enc/every list word", true, "")
+		r.c14Dec(words, "dec/every list word in a valid mnemonic", words[0])
+	}
 	// a valid list with blank elements added, or with white space attached to a word: neither is a list of
 	// 12/15/18/21/24 list words
 	for i := 0; i < r.N(40, 400); i++ {
